@@ -15,6 +15,7 @@
 """
 from __future__ import annotations
 
+import itertools
 import json
 import math
 import random
@@ -110,6 +111,29 @@ def branch_contracts(ck, cs, system, orbit, label, fractions_step, disp, n_stm=2
                 if len(ck.cov["samples"]) < 4:
                     ck.sample({"branch": blabel, "fraction": float(f), "tau": float(tau), "seed_offset": w.tolist(),
                                "floquet_vector": v.tolist(), "multiplier": float(ev[i].real), "angle_rad": angle(w, v)})
+    # "stable branches are integrated backward and unstable ones forward in time", for every integration method: the END state of
+    # each retained trajectory is the flow of its own seed over the signed time span it reports (re-integrated with the adaptive
+    # DOP853 path of _propagate_dynsys, whose direction handling is decided by C10)
+    from hiten.algorithms.dynamics.base import _propagate_dynsys
+    for (method, order), stable in itertools.product((("adaptive", 8), ("fixed", 8), ("fixed", 4), ("adaptive", 5)), (True, False)):
+        man = orbit.manifold(stable=stable, direction="positive")
+        res = man.compute(step=0.25, integration_fraction=0.2, displacement=disp, dt=2e-3, method=method, order=order,
+                          show_progress=False, energy_tol=1e-6)
+        _, _, states_list, times_list, _, _ = res
+        blabel = f"{label}|stable={stable}|method={method}{order}"
+        ck.count(("branch-method", blabel), True)
+        t = cs.trace(blabel, {"times_signed": -100, "end_state_on_signed_flow": -50}, {"orbit": label, "stable": stable, "direction": f"method={method}{order}"})
+        for times, states in zip(times_list, states_list):
+            times, states = np.asarray(times, dtype=float), np.asarray(states, dtype=float)
+            d = np.diff(times)
+            ok = times[0] == 0.0 and (np.all(times <= 0.0) and np.all(d < 0) if stable else np.all(times >= 0.0) and np.all(d > 0))
+            cs.obs(t, "times_signed", 0.0 if ok else 1.0)
+            ref = _propagate_dynsys(system.dynsys, states[0], 0.0, abs(float(times[-1])), forward=(-1 if stable else 1), steps=2,
+                                    method="adaptive", order=8, rtol=1e-13, atol=1e-13)
+            cs.obs(t, "end_state_on_signed_flow", float(np.max(np.abs(np.asarray(ref.states[-1]) - states[-1]))))
+        if not t["ev"]:
+            cs.traces.remove(t)
+            ck.notes.append(f"{blabel}: no trajectory retained")
     # opposite sides
     for stable in (True, False):
         t = cs.trace(f"{label}|stable={stable}|sides", {"opposite_sides": -30}, {"orbit": label, "stable": stable, "direction": "both"})
